@@ -1,13 +1,1031 @@
-//! C08 — not yet implemented
-use crate::core::{Ctx, Outcome};
-use serde_json::Value;
+//! C08 — The simulated exchange keeps a consistent ledger of balances, orders and fills.
+//!
+//! Layer 1 (E-SEQ, deciding): all sequences of open-order requests of length <= d over the alphabet
+//! {buy, sell} x price{1,10} x quantity{1,2,3} x instrument{BTCUSDT, ETHUSDT, ETHBTC} (market) + one
+//! limit order and one unknown-instrument order per side, for every configuration
+//! (initial balance of btc, eth, usdt from a menu that makes "exactly enough" reachable) x fee {0, 0.1},
+//! executed through the real `MockExchange::open_order`; the ledger is read back after every step with
+//! the real `MockExchange::account_snapshot`. The three instruments share assets (eth/btc: base of one
+//! is quote of another) so "which asset was spent" is observable.
+//!
+//! Layer 2 (E-ENV): the real `MockExecution` client talking to the real `MockExchange::run` on a paused
+//! current-thread runtime; every sequence (<= d ops) of {open-order symbols, fetch_trades(since),
+//! fetch_balances, account_snapshot} x {next op immediately / after the latency}; counts oneshot
+//! responses and broadcast notifications and checks the queries.
+//!
+//! Oracle (statement):
+//!   R-accept   a market order on a configured instrument is accepted iff balance(spent) >= required, with
+//!              spent = quote, required = p*q*(1+fee) for a buy; spent = BASE, required = q*(1+fee) for a sell.
+//!   R-debit    on acceptance exactly the spent asset is debited by exactly `required` (total and free),
+//!              every other balance is unchanged, no balance is negative.
+//!   R-reject   on rejection no balance changes and nothing is announced. Limit orders and orders for an
+//!              instrument the exchange does not list cannot be filled as market orders: rejected.
+//!   R-fill     each accepted order yields exactly one fill: order id and trade id fresh (never issued
+//!              before), the trade echoes instrument/strategy/side/price/quantity, fees = fee * p * q (quote).
+//!   R-notify   one balance notification (the debited asset with its new balance) and one trade
+//!              notification per accepted order, none for a rejected one (layer 2: on the broadcast stream;
+//!              their relative order is not prescribed).
+//!   R-queries  balances / snapshot equal the ledger; trade queries list exactly the accepted orders'
+//!              trades (with time >= since; a trade exactly at `since` may be listed or not).
+//! After each step the reference ledger is re-synchronised with the implementation so that one defect is
+//! reported once per step with a stable signature and does not cascade.
+//!
+//! Signature for the candidate finding of DESIGN §5: when a sell deviates from the rules above but is
+//! fully explained by "the sell checked and debited the QUOTE asset" the step is reported under the
+//! single signature `C08/sell-spends-wrong-asset/quote-instead-of-base`.
 
-pub fn run(_ctx: &Ctx) -> Outcome {
-    eprintln!("MACHINERY: C08 not implemented");
-    std::process::exit(2)
+use crate::core::{Ctx, Distinct, Outcome, Samples, hash_of};
+use crate::explore::{
+    choice::{self, Chooser},
+    env::paused_rt,
+    seq::{self, SeqModel, Viol},
+};
+use barter_execution::{
+    AccountEventKind, UnindexedAccountEvent, UnindexedAccountSnapshot,
+    balance::{AssetBalance, Balance},
+    client::{
+        ExecutionClient,
+        mock::{MockExecution, MockExecutionClientConfig, MockExecutionConfig},
+    },
+    error::UnindexedOrderError,
+    exchange::mock::{MockExchange, OpenOrderNotifications, account::AccountState},
+    order::{
+        Order, OrderEvent, OrderKey, OrderKind, TimeInForce,
+        id::{ClientOrderId, StrategyId},
+        request::{OrderRequestOpen, RequestOpen},
+        state::Open,
+    },
+    trade::{AssetFees, Trade},
+};
+use barter_instrument::{
+    Side, Underlying,
+    asset::{QuoteAsset, name::AssetNameExchange},
+    exchange::ExchangeId,
+    instrument::{Instrument, name::InstrumentNameExchange},
+};
+use barter_integration::snapshot::Snapshot;
+use chrono::{DateTime, TimeDelta, Utc};
+use fnv::FnvHashMap;
+use futures::StreamExt;
+use rayon::prelude::*;
+use rust_decimal::Decimal;
+use rust_decimal_macros::dec;
+use serde::{Deserialize, Serialize};
+use serde_json::{Value, json};
+use std::{
+    collections::BTreeMap,
+    future::Future,
+    panic::{AssertUnwindSafe, catch_unwind},
+    pin::Pin,
+    sync::{
+        Arc, Mutex,
+        atomic::{AtomicU64, Ordering},
+    },
+    time::Duration,
+};
+use tokio::sync::{broadcast, mpsc};
+
+use super::common::t0;
+
+const EXCHANGE: ExchangeId = ExchangeId::BinanceSpot;
+const ASSETS: [&str; 3] = ["btc", "eth", "usdt"];
+/// (name, base, quote)
+const INSTRUMENTS: [(&str, &str, &str); 3] = [("BTCUSDT", "btc", "usdt"), ("ETHUSDT", "eth", "usdt"), ("ETHBTC", "eth", "btc")];
+const UNKNOWN: &str = "DOGEUSDT";
+
+// ------------------------------------------------------------------------------------------------
+// alphabet + configuration
+// ------------------------------------------------------------------------------------------------
+
+/// One open-order request. `inst` 0..=2 = INSTRUMENTS, 3 = not listed.
+#[derive(Debug, Clone, Copy, PartialEq, Eq, Hash, Serialize, Deserialize)]
+pub struct Sym {
+    pub sell: bool,
+    pub price: u32,
+    pub qty: u32,
+    pub inst: u8,
+    pub limit: bool,
 }
 
-pub fn replay(_ctx: &Ctx, _case: &Value) {
-    eprintln!("MACHINERY: C08 not implemented");
-    std::process::exit(2)
+/// initial balances (btc, eth, usdt) and fee, as decimal strings (the config travels in the case label)
+#[derive(Debug, Clone, PartialEq, Eq, Hash, Serialize, Deserialize)]
+pub struct Config {
+    pub balances: [String; 3],
+    pub fee: String,
+}
+impl Config {
+    fn label(&self) -> String {
+        serde_json::to_string(self).unwrap()
+    }
+    fn fee(&self) -> Decimal {
+        self.fee.parse().unwrap()
+    }
+    fn mock_config(&self, latency_ms: u64) -> MockExecutionConfig {
+        MockExecutionConfig {
+            mocked_exchange: EXCHANGE,
+            initial_state: UnindexedAccountSnapshot {
+                exchange: EXCHANGE,
+                balances: ASSETS
+                    .iter()
+                    .zip(self.balances.iter())
+                    .map(|(a, b)| {
+                        let b: Decimal = b.parse().unwrap();
+                        AssetBalance { asset: AssetNameExchange::new(*a), balance: Balance { total: b, free: b }, time_exchange: t0() }
+                    })
+                    .collect(),
+                instruments: vec![],
+            },
+            latency_ms,
+            fees_percent: self.fee(),
+        }
+    }
+}
+
+fn instruments() -> FnvHashMap<InstrumentNameExchange, Instrument<ExchangeId, AssetNameExchange>> {
+    INSTRUMENTS
+        .iter()
+        .map(|(name, base, quote)| {
+            (
+                InstrumentNameExchange::new(*name),
+                Instrument::spot(EXCHANGE, format!("{}_{}", EXCHANGE.as_str(), name.to_lowercase()), *name, Underlying::new(*base, *quote), None),
+            )
+        })
+        .collect()
+}
+
+fn alphabet(qtys: &[u32]) -> Vec<Sym> {
+    let mut v = Vec::new();
+    for sell in [false, true] {
+        for inst in 0..3u8 {
+            for price in [1u32, 10] {
+                for &qty in qtys {
+                    v.push(Sym { sell, price, qty, inst, limit: false });
+                }
+            }
+        }
+    }
+    for sell in [false, true] {
+        v.push(Sym { sell, price: 1, qty: 1, inst: 2, limit: true });
+        v.push(Sym { sell, price: 1, qty: 1, inst: 3, limit: false });
+    }
+    v
+}
+
+fn inst_name(s: &Sym) -> &'static str {
+    if (s.inst as usize) < INSTRUMENTS.len() { INSTRUMENTS[s.inst as usize].0 } else { UNKNOWN }
+}
+
+fn request(s: &Sym, n: usize) -> OrderRequestOpen<ExchangeId, InstrumentNameExchange> {
+    OrderEvent {
+        key: OrderKey {
+            exchange: EXCHANGE,
+            instrument: InstrumentNameExchange::new(inst_name(s)),
+            strategy: StrategyId::new(format!("strat-{}", n % 2)),
+            cid: ClientOrderId::new(format!("cid-{n}")),
+        },
+        state: RequestOpen {
+            side: if s.sell { Side::Sell } else { Side::Buy },
+            price: Decimal::from(s.price),
+            quantity: Decimal::from(s.qty),
+            kind: if s.limit { OrderKind::Limit } else { OrderKind::Market },
+            time_in_force: TimeInForce::ImmediateOrCancel,
+        },
+    }
+}
+
+// ------------------------------------------------------------------------------------------------
+// reference ledger + judgement of one open-order step (shared by both layers)
+// ------------------------------------------------------------------------------------------------
+
+/// asset -> (total, free)
+type Ledger = BTreeMap<String, (Decimal, Decimal)>;
+
+fn ledger_of(balances: &[AssetBalance<AssetNameExchange>]) -> Ledger {
+    balances.iter().map(|b| (b.asset.name().to_string(), (b.balance.total, b.balance.free))).collect()
+}
+
+type OpenResp = Order<ExchangeId, InstrumentNameExchange, Result<Open, UnindexedOrderError>>;
+
+/// What one open-order step showed. `after` = ledger read back (layer 1); layer 2 has only the announcements.
+struct Observed<'a> {
+    resp: &'a OpenResp,
+    /// announced balance snapshots / trades for this order
+    balances: Vec<&'a AssetBalance<AssetNameExchange>>,
+    trades: Vec<&'a Trade<QuoteAsset, InstrumentNameExchange>>,
+    after: Option<&'a Ledger>,
+}
+
+/// ids issued so far (freshness)
+#[derive(Default, Clone)]
+struct Issued {
+    order_ids: Vec<String>,
+    trade_ids: Vec<String>,
+}
+
+/// (spent asset, required amount) under the statement, or None if the order cannot be a market fill
+fn spend(s: &Sym, fee: Decimal, use_quote_for_sell: bool) -> Option<(&'static str, Decimal)> {
+    if s.limit || s.inst as usize >= INSTRUMENTS.len() {
+        return None;
+    }
+    let (_, base, quote) = INSTRUMENTS[s.inst as usize];
+    let (p, q) = (Decimal::from(s.price), Decimal::from(s.qty));
+    Some(if s.sell {
+        (if use_quote_for_sell { quote } else { base }, q + q * fee)
+    } else {
+        (quote, p * q + p * q * fee)
+    })
+}
+
+/// ledger after the step if the order is decided on `spent`/`required`
+fn predict(before: &Ledger, sp: Option<(&'static str, Decimal)>) -> (bool, Ledger) {
+    match sp {
+        Some((asset, required)) if before[asset].1 >= required => {
+            let mut l = before.clone();
+            let e = l.get_mut(asset).unwrap();
+            e.0 -= required;
+            e.1 -= required;
+            (true, l)
+        }
+        _ => (false, before.clone()),
+    }
+}
+
+struct LazyTxt<F: Fn() -> String>(F);
+impl<F: Fn() -> String> std::fmt::Display for LazyTxt<F> {
+    fn fmt(&self, f: &mut std::fmt::Formatter<'_>) -> std::fmt::Result {
+        f.write_str(&(self.0)())
+    }
+}
+
+/// Judge one step. Returns the violations and the ledger to continue from (None = unknown, layer 2 only).
+fn judge_open(s: &Sym, n: usize, fee: Decimal, before: &Ledger, o: &Observed, issued: &mut Issued, render: bool) -> (Vec<Viol>, Option<Ledger>) {
+    // details are rendered only on request (`render`): the explorer first asks for the signatures only
+    macro_rules! det {
+        ($($t:tt)*) => { if render { format!($($t)*) } else { String::new() } };
+    }
+    let side = if s.sell { "sell" } else { "buy" };
+    let tag = if s.limit {
+        "limit"
+    } else if s.inst as usize >= INSTRUMENTS.len() {
+        "unknown-instrument"
+    } else {
+        "market"
+    };
+    let req = request(s, n);
+    let accepted = o.resp.state.is_ok();
+    let sp = spend(s, fee, false);
+    let (want_accept, want_after) = predict(before, sp);
+    let mut ledger_viols: Vec<Viol> = Vec::new(); // violations about which asset / how much / accept-or-not
+    let mut other: Vec<Viol> = Vec::new();
+    // rendered only when a violation is reported
+    let ctx_txt = LazyTxt(|| format!("request #{n} {s:?} fee={fee} ledger before={before:?} response state={:?}", o.resp.state));
+
+    // R-accept
+    if accepted != want_accept {
+        ledger_viols.push((
+            format!("C08/accept-iff-enough/{side}/{tag}/expected={}-got={}", if want_accept { "accept" } else { "reject" }, if accepted { "accept" } else { "reject" }),
+            det!("{ctx_txt}; statement: spent/required={sp:?}"),
+        ));
+    }
+    // R-debit / R-reject on the ledger read back
+    if let Some(after) = o.after {
+        // (only a balance this step touched: a negative balance inherited from an earlier, already reported step is not re-reported)
+        if let Some((a, v)) = after.iter().find(|(a, v)| (v.0 < Decimal::ZERO || v.1 < Decimal::ZERO) && before[*a] != **v) {
+            ledger_viols.push((format!("C08/negative-balance/{side}"), det!("{ctx_txt}; {a} = {v:?} after the step")));
+        }
+        let changed: Vec<&String> = after.keys().filter(|k| after[*k] != before[*k]).collect();
+        if accepted {
+            if let Some((asset, required)) = sp {
+                let others: Vec<&&String> = changed.iter().filter(|k| k.as_str() != asset).collect();
+                let d = (before[asset].0 - after[asset].0, before[asset].1 - after[asset].1);
+                if d.0 == Decimal::ZERO && d.1 == Decimal::ZERO && !others.is_empty() {
+                    ledger_viols.push((format!("C08/debit/{side}/wrong-asset"), det!("{ctx_txt}; must debit {asset} by {required}; changed instead: {others:?}; after={after:?}")));
+                } else {
+                    if d != (required, required) {
+                        let what = if d.0 != d.1 { "total-and-free-differ" } else { "wrong-amount" };
+                        ledger_viols.push((format!("C08/debit/{side}/{what}"), det!("{ctx_txt}; must debit {asset} by {required}; debited (total,free)={d:?}")));
+                    }
+                    if !others.is_empty() {
+                        ledger_viols.push((format!("C08/debit/{side}/other-balance-changed"), det!("{ctx_txt}; only {asset} may change; also changed: {others:?}; after={after:?}")));
+                    }
+                }
+            }
+        } else if !changed.is_empty() {
+            ledger_viols.push((format!("C08/reject-leaves-balances/{side}/{tag}"), det!("{ctx_txt}; changed on rejection: {changed:?}; after={after:?}")));
+        }
+    }
+    // R-notify (content of the balance announcement) + R-fill
+    if accepted {
+        let open = o.resp.state.as_ref().unwrap();
+        if issued.order_ids.contains(&open.id.0.to_string()) {
+            other.push(("C08/fresh-id/order-id-reused".into(), det!("{ctx_txt}; order id {} was issued before: {:?}", open.id.0, issued.order_ids)));
+        }
+        issued.order_ids.push(open.id.0.to_string());
+        if o.balances.len() != 1 {
+            other.push((format!("C08/notify/balance/count={}", o.balances.len().min(2)), det!("{ctx_txt}; {} balance announcements for one accepted order", o.balances.len())));
+        }
+        if o.trades.len() != 1 {
+            other.push((format!("C08/notify/trade/count={}", o.trades.len().min(2)), det!("{ctx_txt}; {} fills/trade announcements for one accepted order", o.trades.len())));
+        }
+        if let (Some((asset, _)), Some(b)) = (sp, o.balances.first()) {
+            let expect = o.after.unwrap_or(&want_after)[asset];
+            if b.asset.name().as_str() != asset {
+                ledger_viols.push((format!("C08/notify/balance/{side}/wrong-asset"), det!("{ctx_txt}; announced balance of {} instead of the debited {asset}", b.asset.name())));
+            } else if (b.balance.total, b.balance.free) != expect {
+                ledger_viols.push((format!("C08/notify/balance/{side}/wrong-value"), det!("{ctx_txt}; announced {:?}, ledger says {expect:?}", b.balance)));
+            }
+        }
+        if let Some(t) = o.trades.first() {
+            if issued.trade_ids.contains(&t.id.0.to_string()) {
+                other.push(("C08/fresh-id/trade-id-reused".into(), det!("{ctx_txt}; trade id {} was issued before: {:?}", t.id.0, issued.trade_ids)));
+            }
+            issued.trade_ids.push(t.id.0.to_string());
+            if t.order_id != open.id {
+                other.push(("C08/fill/order-id-mismatch".into(), det!("{ctx_txt}; trade.order_id={:?} response id={:?}", t.order_id, open.id)));
+            }
+            if t.instrument != req.key.instrument || t.strategy != req.key.strategy || t.side != req.state.side || t.price != req.state.price || t.quantity != req.state.quantity {
+                other.push(("C08/fill/does-not-echo-order".into(), det!("{ctx_txt}; trade={t:?}")));
+            }
+            let want_fee = req.state.price * req.state.quantity * fee;
+            if t.fees.fees != want_fee {
+                other.push((format!("C08/fill/fees/{side}"), det!("{ctx_txt}; trade fees {} (quote), configured percentage of the order value gives {want_fee}", t.fees.fees)));
+            }
+        }
+    } else if !o.balances.is_empty() || !o.trades.is_empty() {
+        other.push(("C08/notify/rejected-order-announced".into(), det!("{ctx_txt}; {} balance / {} trade announcements", o.balances.len(), o.trades.len())));
+    }
+
+    // continuation ledger + folding of the "sell spent the quote asset" explanation
+    let mut next = match o.after {
+        Some(a) => Some(a.clone()),
+        None if ledger_viols.is_empty() => Some(want_after.clone()),
+        None => None,
+    };
+    if !ledger_viols.is_empty() && s.sell && sp.is_some() {
+        let alt = spend(s, fee, true);
+        let (alt_accept, alt_after) = predict(before, alt);
+        let ledger_ok = o.after.map(|a| *a == alt_after).unwrap_or(true);
+        let announce_ok = !accepted
+            || o.balances.first().map(|b| b.asset.name().as_str() == alt.unwrap().0 && (b.balance.total, b.balance.free) == alt_after[alt.unwrap().0]).unwrap_or(true);
+        if accepted == alt_accept && ledger_ok && announce_ok {
+            let first = ledger_viols[0].0.clone();
+            ledger_viols = vec![(
+                "C08/sell-spends-wrong-asset/quote-instead-of-base".into(),
+                det!(
+                    "{ctx_txt}; statement: a sell spends the BASE asset {:?}; observed behaviour is exactly that of checking and debiting the QUOTE asset {:?} (ledger after={:?}, announced={:?}) [first broken rule: {first}]",
+                    sp.unwrap(), alt.unwrap(), o.after, o.balances.first().map(|b| (b.asset.name().to_string(), b.balance))
+                ),
+            )];
+            next = Some(o.after.cloned().unwrap_or(alt_after));
+        }
+    }
+    ledger_viols.extend(other);
+    (ledger_viols, next)
+}
+
+// ------------------------------------------------------------------------------------------------
+// layer 1: E-SEQ on MockExchange::open_order / account_snapshot
+// ------------------------------------------------------------------------------------------------
+
+/// The real exchange; `Clone` rebuilds it from its public fields (channel ends are fresh and unused here).
+struct Ex(MockExchange);
+impl Clone for Ex {
+    fn clone(&self) -> Self {
+        let e = &self.0;
+        let (_tx, rx) = mpsc::unbounded_channel();
+        let (etx, _) = broadcast::channel(1);
+        Ex(MockExchange {
+            exchange: e.exchange,
+            latency_ms: e.latency_ms,
+            fees_percent: e.fees_percent,
+            request_rx: rx,
+            event_tx: etx,
+            instruments: e.instruments.clone(),
+            account: AccountState::new(
+                e.account.balances().map(|b| (b.asset.clone(), b.clone())).collect(),
+                e.account.orders_open().map(|o| (o.key.cid.clone(), o.clone())).collect(),
+                e.account.orders_cancelled().map(|o| (o.key.cid.clone(), o.clone())).collect(),
+                e.account.trades(DateTime::<Utc>::MIN_UTC).cloned().collect(),
+            ),
+            order_sequence: e.order_sequence,
+            time_exchange_latest: e.time_exchange_latest,
+        })
+    }
+}
+
+#[derive(Clone)]
+pub struct St {
+    ex: Ex,
+    issued: Issued,
+    accepted_cids: Vec<String>,
+    dead: bool,
+}
+
+pub struct M<'a> {
+    /// None when replaying (every violation is rendered)
+    ctx: Option<&'a Ctx>,
+    /// signature -> (shortest history length it was reported with by this model, occurrences not rendered)
+    seen: Mutex<std::collections::HashMap<String, (usize, u64)>>,
+    cfg: Config,
+    alphabet: Vec<Sym>,
+    evals: AtomicU64,
+    accepted: AtomicU64,
+    rejected: AtomicU64,
+}
+
+impl<'a> M<'a> {
+    fn new(ctx: Option<&'a Ctx>, cfg: Config, alphabet: Vec<Sym>) -> Self {
+        Self { ctx, seen: Mutex::new(Default::default()), cfg, alphabet, evals: AtomicU64::new(0), accepted: AtomicU64::new(0), rejected: AtomicU64::new(0) }
+    }
+}
+
+impl<'a> SeqModel for M<'a> {
+    type State = St;
+    type Sym = Sym;
+
+    fn init(&self) -> St {
+        let (_tx, rx) = mpsc::unbounded_channel();
+        let (etx, _) = broadcast::channel(1);
+        St { ex: Ex(MockExchange::new(self.cfg.mock_config(0), rx, etx, instruments())), issued: Issued::default(), accepted_cids: vec![], dead: false }
+    }
+
+    fn alphabet(&self, s: &St, _hist: &[Sym]) -> Vec<Sym> {
+        if s.dead { vec![] } else { self.alphabet.clone() }
+    }
+
+    fn step(&self, s: &mut St, sym: &Sym, hist: &[Sym], out: &mut Vec<Viol>) {
+        let n = hist.len();
+        let fee = self.cfg.fee();
+        let before = ledger_of(&s.ex.0.account_snapshot().balances);
+        // exchange time moves with the requests (two requests share an instant, then it advances)
+        let t = t0() + TimeDelta::seconds((n / 2) as i64);
+        s.ex.0.time_exchange_latest = t;
+        s.ex.0.account.update_time_exchange(t);
+        let req = request(sym, n);
+        let r = catch_unwind(AssertUnwindSafe(|| s.ex.0.open_order(req)));
+        let (resp, notifications) = match r {
+            Ok(x) => x,
+            Err(_) => {
+                out.push((format!("C08/panic/open_order/{}", if sym.sell { "sell" } else { "buy" }), format!("open_order panicked on request #{n} {sym:?}, ledger before={before:?}")));
+                s.dead = true;
+                return;
+            }
+        };
+        let snap = s.ex.0.account_snapshot();
+        let after = ledger_of(&snap.balances);
+        let obs = Observed {
+            resp: &resp,
+            balances: notifications.iter().map(|x| &x.balance.0).collect(),
+            trades: notifications.iter().map(|x| &x.trade).collect(),
+            after: Some(&after),
+        };
+        // signatures first; a signature already reported by this model for a sequence that is not longer is
+        // only counted (the collector keeps the shortest case anyway), everything else is rendered and reported
+        let mut issued_probe = s.issued.clone();
+        let (sigs, _) = judge_open(sym, n, fee, &before, &obs, &mut issued_probe, false);
+        let mut need = sigs.is_empty();
+        if !sigs.is_empty() {
+            let mut seen = self.seen.lock().unwrap();
+            for (sig, _) in &sigs {
+                match seen.get_mut(sig) {
+                    // strictly longer than a reported case: count only (flushed into the collector after the run)
+                    Some((len, suppressed)) if *len < n => *suppressed += 1,
+                    Some((len, _)) => {
+                        *len = n.min(*len);
+                        need = true;
+                    }
+                    None => {
+                        seen.insert(sig.clone(), (n, 0));
+                        need = true;
+                    }
+                }
+            }
+        }
+        if need {
+            let fresh: Vec<String> = {
+                let seen = self.seen.lock().unwrap();
+                sigs.iter().filter(|(g, _)| seen.get(g).map(|x| x.0 >= n).unwrap_or(true)).map(|(g, _)| g.clone()).collect()
+            };
+            let (viols, _) = judge_open(sym, n, fee, &before, &obs, &mut s.issued, true);
+            out.extend(viols.into_iter().filter(|(g, _)| self.ctx.is_none() || fresh.contains(g)));
+        } else {
+            s.issued = issued_probe;
+        }
+        if resp.state.is_ok() {
+            s.accepted_cids.push(format!("cid-{n}"));
+            self.accepted.fetch_add(1, Ordering::Relaxed);
+        } else {
+            self.rejected.fetch_add(1, Ordering::Relaxed);
+        }
+        // the alphabet assumes total == free (the code asserts it): a state that lost it is not explored further
+        if after.values().any(|v| v.0 != v.1) {
+            s.dead = true;
+        }
+        // R-queries (snapshot): every listed asset once; no order that was not accepted
+        if snap.balances.len() != after.len() || after.len() != ASSETS.len() {
+            out.push(("C08/snapshot/balances-not-one-per-asset".into(), format!("after request #{n} {sym:?}: snapshot balances={:?}", snap.balances)));
+        }
+        for o in snap.instruments.iter().flat_map(|i| i.orders.iter()) {
+            if !s.accepted_cids.contains(&o.key.cid.0.to_string()) {
+                out.push(("C08/snapshot/lists-order-never-accepted".into(), format!("after request #{n} {sym:?}: snapshot lists {o:?}")));
+            }
+        }
+        self.evals.fetch_add(1, Ordering::Relaxed);
+    }
+
+    fn final_hash(&self, s: &St) -> u64 {
+        let l = ledger_of(&s.ex.0.account_snapshot().balances);
+        hash_of(&(self.cfg.label(), l, s.ex.0.order_sequence))
+    }
+}
+
+// ------------------------------------------------------------------------------------------------
+// layer 2: E-ENV through MockExecution -> MockExchange::run
+// ------------------------------------------------------------------------------------------------
+
+const LATENCY_MS: u64 = 100;
+
+#[derive(Debug, Clone, Copy, PartialEq, Eq, Hash, Serialize, Deserialize)]
+pub enum Op {
+    Open(Sym),
+    /// since = the beginning of time
+    TradesAll,
+    /// since = exchange time of a request sent now (trades of orders sent at this instant are exactly at `since`)
+    TradesSinceNow,
+    Balances,
+    Snapshot,
+}
+
+fn env_ops() -> Vec<Op> {
+    let m = |sell, price, qty, inst| Op::Open(Sym { sell, price, qty, inst, limit: false });
+    vec![
+        m(false, 10, 1, 0), // buy BTCUSDT
+        m(true, 10, 1, 0),  // sell BTCUSDT
+        m(true, 1, 3, 2),   // sell ETHBTC (base eth, quote btc)
+        m(false, 1, 2, 2),  // buy ETHBTC
+        m(false, 10, 3, 1), // buy ETHUSDT, large
+        Op::Open(Sym { sell: false, price: 1, qty: 1, inst: 2, limit: true }),
+        Op::Open(Sym { sell: true, price: 1, qty: 1, inst: 3, limit: false }),
+        Op::TradesAll,
+        Op::TradesSinceNow,
+        Op::Balances,
+        Op::Snapshot,
+    ]
+}
+
+enum Resp {
+    Open(OpenResp),
+    Trades(Vec<Trade<QuoteAsset, InstrumentNameExchange>>),
+    Balances(Vec<AssetBalance<AssetNameExchange>>),
+    Snapshot(UnindexedAccountSnapshot),
+    Failed(String),
+}
+
+struct EnvExec {
+    viols: Vec<Viol>,
+    ops: Vec<(Op, u64)>,
+    outcome_hash: u64,
+    responses: u64,
+    notifications: u64,
+}
+
+fn env_execute(cfg: &Config, max_ops: usize, ch: &mut Chooser) -> EnvExec {
+    let menu = env_ops();
+    let fee = cfg.fee();
+    let rt = paused_rt();
+    let names: Vec<InstrumentNameExchange> =
+        INSTRUMENTS.iter().map(|i| i.0).chain([UNKNOWN]).map(InstrumentNameExchange::new).collect();
+    let clock_now = Arc::new(Mutex::new(t0()));
+    let mut ops: Vec<(Op, u64)> = Vec::new(); // (op, virtual ms at which it was sent)
+    let mut answers: Vec<Option<Resp>> = Vec::new();
+    let mut events: Vec<UnindexedAccountEvent> = Vec::new();
+    let mut task_died = false;
+
+    rt.block_on(async {
+        let (request_tx, request_rx) = mpsc::unbounded_channel();
+        let (event_tx, event_rx) = broadcast::channel(256);
+        let clock = {
+            let c = clock_now.clone();
+            move || *c.lock().unwrap()
+        };
+        let client = <MockExecution<_> as ExecutionClient>::new(MockExecutionClientConfig { mocked_exchange: EXCHANGE, clock, request_tx, event_rx });
+        let mut stream = client.account_stream(&[], &[]).await.expect("account stream");
+        let exchange = MockExchange::new(cfg.mock_config(LATENCY_MS), request_rx, event_tx, instruments());
+        let handle = tokio::spawn(exchange.run());
+        let mut pending: Vec<(usize, Pin<Box<dyn Future<Output = Resp> + '_>>)> = Vec::new();
+        let mut now_ms = 0u64;
+
+        // let the exchange task, its latency tasks and the client futures run until nothing moves
+        macro_rules! settle {
+            () => {{
+                for _ in 0..3 {
+                    for _ in 0..4 {
+                        tokio::task::yield_now().await;
+                    }
+                    let mut i = 0;
+                    while i < pending.len() {
+                        match futures::poll!(pending[i].1.as_mut()) {
+                            std::task::Poll::Ready(r) => {
+                                let (k, _) = pending.remove(i);
+                                answers[k] = Some(r);
+                            }
+                            std::task::Poll::Pending => i += 1,
+                        }
+                    }
+                    while let std::task::Poll::Ready(Some(ev)) = futures::poll!(stream.next()) {
+                        events.push(ev);
+                    }
+                }
+            }};
+        }
+
+        while ops.len() < max_ops {
+            let c = ch.choose(menu.len() + 1);
+            if c == 0 {
+                break;
+            }
+            let op = menu[c - 1];
+            let k = ops.len();
+            ops.push((op, now_ms));
+            answers.push(None);
+            *clock_now.lock().unwrap() = t0() + TimeDelta::milliseconds(now_ms as i64);
+            let client = &client;
+            let names = &names;
+            let fut: Pin<Box<dyn Future<Output = Resp> + '_>> = match op {
+                Op::Open(s) => {
+                    let r = request(&s, k);
+                    Box::pin(async move {
+                        let req = OrderEvent {
+                            key: OrderKey { exchange: r.key.exchange, instrument: &names[s.inst as usize], strategy: r.key.strategy.clone(), cid: r.key.cid.clone() },
+                            state: r.state.clone(),
+                        };
+                        Resp::Open(client.open_order(req).await)
+                    })
+                }
+                Op::TradesAll => Box::pin(async move {
+                    match client.fetch_trades(DateTime::<Utc>::MIN_UTC).await {
+                        Ok(v) => Resp::Trades(v),
+                        Err(e) => Resp::Failed(format!("{e:?}")),
+                    }
+                }),
+                Op::TradesSinceNow => {
+                    let since = t0() + TimeDelta::milliseconds((now_ms + LATENCY_MS / 2) as i64);
+                    Box::pin(async move {
+                        match client.fetch_trades(since).await {
+                            Ok(v) => Resp::Trades(v),
+                            Err(e) => Resp::Failed(format!("{e:?}")),
+                        }
+                    })
+                }
+                Op::Balances => Box::pin(async move {
+                    match client.fetch_balances().await {
+                        Ok(v) => Resp::Balances(v),
+                        Err(e) => Resp::Failed(format!("{e:?}")),
+                    }
+                }),
+                Op::Snapshot => Box::pin(async move {
+                    match client.account_snapshot(&[], &[]).await {
+                        Ok(v) => Resp::Snapshot(v),
+                        Err(e) => Resp::Failed(format!("{e:?}")),
+                    }
+                }),
+            };
+            pending.push((k, fut));
+            settle!();
+            // environment: next op at the same instant, or after the latency has passed
+            if ch.choose(2) == 1 {
+                tokio::time::advance(Duration::from_millis(LATENCY_MS)).await;
+                now_ms += LATENCY_MS;
+                settle!();
+            }
+        }
+        // horizon: everything in flight lands
+        for _ in 0..3 {
+            tokio::time::advance(Duration::from_millis(LATENCY_MS)).await;
+            settle!();
+        }
+        task_died = handle.is_finished();
+        drop(pending);
+    });
+
+    // ---------------------------------------------------------------------------- oracle
+    let mut viols: Vec<Viol> = Vec::new();
+    let seq_txt = format!("config={} ops={ops:?}", cfg.label());
+    if task_died {
+        viols.push(("C08/env/exchange-task-ended".into(), format!("MockExchange::run ended (panicked?) while its client was alive; {seq_txt}")));
+    }
+    // announcements
+    let mut ann_balances: Vec<&AssetBalance<AssetNameExchange>> = Vec::new();
+    let mut ann_trades: Vec<&Trade<QuoteAsset, InstrumentNameExchange>> = Vec::new();
+    for ev in &events {
+        match &ev.kind {
+            AccountEventKind::BalanceSnapshot(Snapshot(b)) => ann_balances.push(b),
+            AccountEventKind::Trade(t) => ann_trades.push(t),
+            other => viols.push(("C08/env/unexpected-announcement".into(), format!("{other:?}; {seq_txt}"))),
+        }
+    }
+    let mut used_b = vec![false; ann_balances.len()];
+    let mut used_t = vec![false; ann_trades.len()];
+    let initial: Ledger = ASSETS.iter().zip(cfg.balances.iter()).map(|(a, b)| (a.to_string(), (b.parse().unwrap(), b.parse().unwrap()))).collect();
+    let mut ledger: Option<Ledger> = Some(initial);
+    let mut issued = Issued::default();
+    // trades of accepted orders so far (as announced by the response: id, exchange time)
+    let mut fills: Vec<(String, DateTime<Utc>, usize)> = Vec::new();
+    let mut responses = 0u64;
+    for (k, (op, sent)) in ops.iter().enumerate() {
+        if task_died && !matches!(&answers[k], Some(Resp::Open(_) | Resp::Trades(_) | Resp::Balances(_) | Resp::Snapshot(_))) {
+            ledger = None; // consequence of the dead exchange task (reported once above)
+            continue;
+        }
+        let Some(ans) = &answers[k] else {
+            viols.push((format!("C08/env/no-response/{}", op_tag(op)), format!("op #{k} {op:?} sent at t={sent}ms never got its oneshot response; {seq_txt}")));
+            if matches!(op, Op::Open(_)) {
+                ledger = None;
+            }
+            continue;
+        };
+        responses += 1;
+        match (op, ans) {
+            (_, Resp::Failed(e)) => viols.push((format!("C08/env/query-failed/{}", op_tag(op)), format!("op #{k} {op:?}: {e}; {seq_txt}"))),
+            (Op::Open(s), Resp::Open(resp)) => {
+                // the announcements of this order: trades carry the order id; balance announcements carry no
+                // order id and the stream order across orders is not prescribed, so an announcement is paired
+                // by content: the one the statement predicts, else the one the "sell spent quote" explanation
+                // predicts, else any unused one (which is then diagnosed as wrong). Left-overs are reported below.
+                let mut trades = Vec::new();
+                let mut balances = Vec::new();
+                if let Ok(open) = &resp.state {
+                    for (i, t) in ann_trades.iter().enumerate() {
+                        if !used_t[i] && t.order_id == open.id {
+                            used_t[i] = true;
+                            trades.push(*t);
+                        }
+                    }
+                    let mut pick: Option<usize> = None;
+                    if let Some(before) = &ledger {
+                        for use_quote in [false, true] {
+                            if let Some((asset, _)) = spend(s, fee, use_quote) {
+                                let (_, after) = predict(before, spend(s, fee, use_quote));
+                                pick = pick.or_else(|| {
+                                    (0..ann_balances.len()).find(|i| {
+                                        let b = ann_balances[*i];
+                                        !used_b[*i] && b.asset.name().as_str() == asset && (b.balance.total, b.balance.free) == after[asset]
+                                    })
+                                });
+                            }
+                        }
+                    }
+                    let pick = pick.or_else(|| used_b.iter().position(|u| !u));
+                    if let Some(i) = pick {
+                        used_b[i] = true;
+                        balances.push(ann_balances[i]);
+                    }
+                    fills.push((open.id.0.to_string(), open.time_exchange, k));
+                }
+                match &ledger {
+                    Some(before) => {
+                        let obs = Observed { resp, balances, trades, after: None };
+                        let (v, next) = judge_open(s, k, fee, before, &obs, &mut issued, true);
+                        viols.extend(v.into_iter().map(|(sig, d)| (sig, format!("[via MockExecution -> MockExchange::run] {d}; {seq_txt}"))));
+                        ledger = next;
+                    }
+                    None => {}
+                }
+            }
+            (Op::TradesAll | Op::TradesSinceNow, Resp::Trades(list)) => {
+                let since = match op {
+                    Op::TradesAll => DateTime::<Utc>::MIN_UTC,
+                    _ => t0() + TimeDelta::milliseconds((*sent + LATENCY_MS / 2) as i64),
+                };
+                let mut got: Vec<String> = list.iter().map(|t| t.id.0.to_string()).collect();
+                got.sort();
+                let must: Vec<String> = fills.iter().filter(|f| f.1 > since).map(|f| f.0.clone()).collect();
+                let may: Vec<String> = fills.iter().filter(|f| f.1 >= since).map(|f| f.0.clone()).collect();
+                let dup = got.windows(2).any(|w| w[0] == w[1]);
+                let missing = must.iter().any(|m| !got.contains(m));
+                let extra = got.iter().any(|g| !may.contains(g));
+                if dup || missing || extra {
+                    let what = if dup { "duplicate" } else if missing { "missing" } else { "extra" };
+                    viols.push((format!("C08/env/trades-query/{what}"), format!("op #{k} {op:?} (since={since}) listed trade ids {got:?}; accepted so far (id, time, op)={fills:?}; {seq_txt}")));
+                }
+            }
+            (Op::Balances, Resp::Balances(list)) => {
+                if let Some(l) = &ledger {
+                    let got = ledger_of(list);
+                    if got != *l || list.len() != l.len() {
+                        viols.push(("C08/env/balances-query/differs-from-ledger".into(), format!("op #{k}: got {got:?}, ledger {l:?}; {seq_txt}")));
+                    }
+                }
+            }
+            (Op::Snapshot, Resp::Snapshot(snap)) => {
+                if let Some(l) = &ledger {
+                    let got = ledger_of(&snap.balances);
+                    if got != *l || snap.balances.len() != l.len() {
+                        viols.push(("C08/env/snapshot-query/differs-from-ledger".into(), format!("op #{k}: got {got:?}, ledger {l:?}; {seq_txt}")));
+                    }
+                }
+                for o in snap.instruments.iter().flat_map(|i| i.orders.iter()) {
+                    if !fills.iter().any(|f| format!("cid-{}", f.2) == o.key.cid.0.as_str()) {
+                        viols.push(("C08/snapshot/lists-order-never-accepted".into(), format!("op #{k}: snapshot lists {o:?}; {seq_txt}")));
+                    }
+                }
+            }
+            _ => viols.push(("C08/env/response-of-wrong-kind".into(), format!("op #{k} {op:?}; {seq_txt}"))),
+        }
+    }
+    let left_b = used_b.iter().filter(|u| !**u).count();
+    let left_t = used_t.iter().filter(|u| !**u).count();
+    if left_b > 0 {
+        viols.push(("C08/env/notify/balance/more-than-one-per-accepted-order".into(), format!("{left_b} balance announcements beyond one per accepted order: {ann_balances:?}; {seq_txt}")));
+    }
+    if left_t > 0 {
+        viols.push(("C08/env/notify/trade/not-owned-by-an-accepted-order".into(), format!("{left_t} trade announcements that belong to no accepted order: {ann_trades:?}; {seq_txt}")));
+    }
+    let outcome_hash = hash_of(&(
+        cfg.label(),
+        answers.iter().map(|a| match a {
+            Some(Resp::Open(r)) => format!("{:?}", r.state.as_ref().map(|o| o.id.clone()).map_err(|_| ())),
+            Some(Resp::Trades(t)) => format!("T{}", t.len()),
+            Some(Resp::Balances(b)) => format!("{:?}", ledger_of(b)),
+            Some(Resp::Snapshot(s)) => format!("{:?}", ledger_of(&s.balances)),
+            Some(Resp::Failed(_)) => "F".into(),
+            None => "-".into(),
+        }).collect::<Vec<_>>(),
+        events.len(),
+    ));
+    EnvExec { viols, ops, outcome_hash, responses, notifications: events.len() as u64 }
+}
+
+fn op_tag(op: &Op) -> &'static str {
+    match op {
+        Op::Open(_) => "open",
+        Op::TradesAll | Op::TradesSinceNow => "trades",
+        Op::Balances => "balances",
+        Op::Snapshot => "snapshot",
+    }
+}
+
+// ------------------------------------------------------------------------------------------------
+// run / replay
+// ------------------------------------------------------------------------------------------------
+
+/// Panics raised inside the code under test (location in one of the barter crates) are caught and reported
+/// as violations, so they are not printed; any other panic is a machinery failure and keeps the default report.
+fn install_quiet_hook() {
+    static ONCE: std::sync::Once = std::sync::Once::new();
+    ONCE.call_once(|| {
+        let default = std::panic::take_hook();
+        std::panic::set_hook(Box::new(move |info| {
+            let in_subject = info.location().map(|l| l.file().contains("/barter-execution/src/") || l.file().contains("/barter/src/")).unwrap_or(false);
+            if !in_subject {
+                default(info);
+            }
+        }));
+    });
+}
+
+fn configs(menu: &[&str], fees: &[&str]) -> Vec<Config> {
+    let mut v = Vec::new();
+    for f in fees {
+        for a in menu {
+            for b in menu {
+                for c in menu {
+                    v.push(Config { balances: [a.to_string(), b.to_string(), c.to_string()], fee: f.to_string() });
+                }
+            }
+        }
+    }
+    v
+}
+
+pub fn run(ctx: &Ctx) -> Outcome {
+    install_quiet_hook();
+    let quick = ctx.tier == crate::core::Tier::Quick;
+    // ---- layer 1
+    // balances: 0 (nothing), 3 / 3.3 (exactly enough for q=3 at price 1 without / with the fee), 33 (exactly 10*3*1.1)
+    // quick: 3-value menu, all sequences <= 3. thorough: the same menu to depth 4 + the configurations that
+    // involve the fee-less boundary value 3 to depth 3.
+    let menu: Vec<&str> = if quick { vec!["0", "3.3", "33"] } else { vec!["0", "3", "3.3", "33"] };
+    let depth_of = |c: &Config| if quick || c.balances.iter().any(|b| b == "3") { 3usize } else { 4 };
+    let depth = if quick { 3 } else { 4 };
+    let cfgs = configs(&menu, &["0", "0.1"]);
+    let alpha = alphabet(&[1, 2, 3]);
+    let distinct = Distinct::default();
+    // configurations in parallel (each seq::run is itself parallel over its prefixes)
+    let per_cfg: Vec<(u64, u64, usize, u64, u64)> = cfgs
+        .par_iter()
+        .map(|cfg| {
+            let m = M::new(Some(ctx), cfg.clone(), alpha.clone());
+            let st = seq::run(ctx, &m, &cfg.label(), depth_of(cfg));
+            for (sig, (_, suppressed)) in m.seen.lock().unwrap().iter() {
+                for _ in 0..*suppressed {
+                    ctx.violations.bump(sig);
+                }
+            }
+            (st.sequences, st.steps, st.distinct_final, m.accepted.load(Ordering::Relaxed), m.rejected.load(Ordering::Relaxed))
+        })
+        .collect();
+    let sequences: u64 = per_cfg.iter().map(|x| x.0).sum();
+    let steps: u64 = per_cfg.iter().map(|x| x.1).sum();
+    let distinct_total: usize = per_cfg.iter().map(|x| x.2).sum();
+    let accepted: u64 = per_cfg.iter().map(|x| x.3).sum();
+    let rejected: u64 = per_cfg.iter().map(|x| x.4).sum();
+    eprintln!("C08 layer 1: configs={} alphabet={} depth={depth} sequences={sequences} steps={steps} accepted={accepted} rejected={rejected} elapsed={:.1}s", cfgs.len(), alpha.len(), ctx.start.elapsed().as_secs_f64());
+
+    // ---- layer 2
+    let env_cfgs = vec![
+        Config { balances: ["3.3".into(), "3.3".into(), "33".into()], fee: "0.1".into() },
+        Config { balances: ["5".into(), "0".into(), "25".into()], fee: "0".into() },
+        Config { balances: ["0".into(), "3".into(), "11".into()], fee: "0.1".into() },
+    ];
+    let env_depth = if quick { 3 } else { 4 };
+    let env_exec = AtomicU64::new(0);
+    let env_resp = AtomicU64::new(0);
+    let env_notes = AtomicU64::new(0);
+    let samples: Mutex<BTreeMap<u64, Value>> = Mutex::new(BTreeMap::new());
+    let mut env_points = 0u64;
+    for cfg in &env_cfgs {
+        let stats = choice::explore(None, |ch| {
+            let ex = env_execute(cfg, env_depth, ch);
+            env_exec.fetch_add(1, Ordering::Relaxed);
+            env_resp.fetch_add(ex.responses, Ordering::Relaxed);
+            env_notes.fetch_add(ex.notifications, Ordering::Relaxed);
+            distinct.add_hash(ex.outcome_hash);
+            let choices = ch.choices();
+            if ex.ops.len() == env_depth && ex.notifications >= 4 {
+                // deterministic sample: the few executions with the smallest case hash
+                let h = hash_of(&(cfg.label(), choices.clone()));
+                let mut g = samples.lock().unwrap();
+                if g.len() < 3 || h < *g.keys().next_back().unwrap() {
+                    g.insert(h, json!({"engine": "env", "config": cfg, "depth": env_depth, "choices": choices, "ops": ex.ops}));
+                    if g.len() > 3 {
+                        let last = *g.keys().next_back().unwrap();
+                        g.remove(&last);
+                    }
+                }
+            }
+            for (sig, detail) in ex.viols {
+                ctx.violate(sig, detail, json!({"engine": "env", "config": cfg, "depth": env_depth, "choices": choices, "ops_for_the_reader": format!("{:?}", ex.ops)}));
+            }
+        });
+        env_points += stats.choice_points;
+    }
+    let env_execs = env_exec.load(Ordering::Relaxed);
+    eprintln!("C08 layer 2: configs={} depth={env_depth} executions={env_execs} elapsed={:.1}s", env_cfgs.len(), ctx.start.elapsed().as_secs_f64());
+
+    Outcome {
+        level: "exploration",
+        coverage: json!({
+            "evaluations": sequences + env_execs,
+            "distinct_nontrivial": distinct_total + distinct.len(),
+            "exhaustive": true,
+            "layer1_seq": {
+                "configurations": cfgs.len(), "balance_menu": menu, "fees": ["0", "0.1"], "alphabet_size": alpha.len(), "max_len": depth, "max_len_for_configurations_with_balance_3": 3,
+                "sequences": sequences, "open_order_calls": steps, "accepted": accepted, "rejected": rejected, "distinct_final_ledgers": distinct_total,
+            },
+            "layer2_env": {
+                "configurations": env_cfgs, "ops_menu": env_ops().len(), "max_ops": env_depth, "executions": env_execs, "choice_points": env_points,
+                "oneshot_responses": env_resp.load(Ordering::Relaxed), "broadcast_notifications": env_notes.load(Ordering::Relaxed),
+                "distinct_outcomes": distinct.len(),
+            },
+            "rule": "ledger model from the statement (buy spends quote p*q*(1+fee), sell spends base q*(1+fee); accept iff enough; exact debit; rejection without effect; fresh ids; fee percentage; one balance + one trade announcement; queries reflect accepted orders) checked after every step of every request sequence <= max_len for every balance/fee configuration on the real MockExchange::open_order/account_snapshot, and on every op sequence x pacing through MockExecution -> MockExchange::run",
+            "samples": samples.lock().unwrap().values().cloned().collect::<Vec<_>>(),
+        }),
+        assumptions: vec![
+            "prices and quantities are positive; initial total == free (market orders only, as the code asserts)".into(),
+            "every asset of every listed instrument has an initial balance entry (the code panics otherwise by design)".into(),
+            "client order ids are unique".into(),
+            "limit orders and orders for unlisted instruments are expected to be rejected without effect (the exchange only fills market orders on listed instruments)".into(),
+            "the relative order of the balance and the trade announcement is not prescribed; a trade exactly at `since` may or may not be listed".into(),
+            "layer 2: requests are processed in the order they were sent (single client)".into(),
+        ],
+    }
+}
+
+pub fn replay(ctx: &Ctx, case: &Value) {
+    install_quiet_hook();
+    match case["engine"].as_str() {
+        Some("seq") => {
+            let cfg: Config = serde_json::from_str(case["label"].as_str().expect("replay: label")).expect("replay: config");
+            let m = M::new(None, cfg, alphabet(&[1, 2, 3]));
+            for (sig, detail) in seq::replay(&m, case) {
+                ctx.violate(sig, detail, case.clone());
+            }
+        }
+        Some("env") => {
+            let cfg: Config = serde_json::from_value(case["config"].clone()).expect("replay: config");
+            let depth = case["depth"].as_u64().expect("replay: depth") as usize;
+            let choices: Vec<usize> = serde_json::from_value(case["choices"].clone()).expect("replay: choices");
+            let mut ch = Chooser::new(choices);
+            let ex = env_execute(&cfg, depth, &mut ch);
+            println!("replay: ops (op, sent at ms) = {:?}; responses={} notifications={}", ex.ops, ex.responses, ex.notifications);
+            for (sig, detail) in ex.viols {
+                ctx.violate(sig, detail, case.clone());
+            }
+        }
+        other => {
+            eprintln!("MACHINERY: C08 replay: unknown engine {other:?}");
+            std::process::exit(2);
+        }
+    }
 }
